@@ -34,6 +34,28 @@ def mk(geom, orth=True, label=None, tags=(), opt=None, non=None, **kw):
     return c
 
 
+def mkx(orth=True, sigma=1.0, opt=None, tags=()):
+    """isolated X-point (four legs on the TORPEX wall)"""
+    d = 3.0e-4
+    o = dict(nx_core=2, nx_sol=2, ny_inner_lower_divertor=3, ny_inner_upper_divertor=3,
+             ny_outer_upper_divertor=3, ny_outer_lower_divertor=3, psi_core=-d * sigma, psi_sol=d * sigma,
+             y_boundary_guards=1, finecontour_Nfine=50, orthogonal=orthogonal_default(orth),
+             psi_spacing_separatrix_multiplier=0.5, refine_timeout=None, number_of_processors=1,
+             refine_width=4.0e-2)
+    if opt:
+        o.update(opt)
+    c = dict(family="X", geom="xpt", sigma=sigma, fpol="const", pressure="none", wall="torpex", via="gfile",
+             options=o, nonorth={})
+    c["label"] = "xpt/%s/sigma=%+d%s" % ("orth" if orth else "nonorth", int(sigma),
+                                          (";" + ",".join("%s=%s" % kv for kv in sorted(opt.items()))) if opt else "")
+    c["tags"] = sorted(set(tags) | {"xpt"})
+    return c
+
+
+def orthogonal_default(orth):
+    return bool(orth)
+
+
 def base_members(topos=TOPOS):
     out = []
     for g in topos:
@@ -81,6 +103,11 @@ def quick_deviations():
     out.append(mk("usn", True, affine=AFF, tags=["affine"]))
     out.append(mk("lsn", False, affine=AFF, tags=["affine"]))
     out.append(mk("cdn", True, affine=AFF, via="gfile", tags=["affine", "gfile"]))
+    # isolated X-point topology (TORPEX g-file path)
+    out.append(mkx(True, 1.0))
+    out.append(mkx(True, -1.0))
+    # (non-orthogonal isolated X-point: refused with the 'line' refine method and does not
+    # terminate with refine_timeout=None and the integrate methods - not a corpus member)
     # profile grid that extends beyond the separatrix; quadratic fpol
     out.append(mk("lsn", True, profile_ext=True, fpol="quad", tags=["profiles"]))
     out.append(mk("ldn", True, profile_ext=True, fpol="quad", tags=["profiles"]))
